@@ -584,8 +584,10 @@ class PseudoNetCDFFile(PseudoNetCDFSelfReg, object):
                 start = dimvals[:1]
                 end = dimvals[-1:]
                 if (dval == dval[0]).all():
-                    start -= dval[0]
-                    end += dval[-1]
+                    # start and end are views of the coordinate variable;
+                    # do not edit them in place
+                    start = start - dval[0]
+                    end = end + dval[-1]
 
                 dimevals = np.concatenate([
                     start,
